@@ -604,3 +604,15 @@ def witness_search(tier, seed):
         return None
     finally:
         shutil.rmtree(d, ignore_errors=True)
+
+
+# thorough tier: CPython cross-check of the encoder on extensions.match (lower / endswith models)
+def _thorough_bounded():
+    from pyvc.xcheck import EncoderCrossCheck, Concrete
+    import simfile._private.extensions as e
+    names = ["a.sm", "A.SM", "b.ssc", "B.Ssc", "c.sm.old", "sm", ".sm", "ssc", "x.ssca", "", "dir/x.SSC", "x.sma", "x. sm"]
+    return [EncoderCrossCheck("extensions.match", "simfile._private.extensions.match", None, lambda p, *x: e.match(p, *x),
+                              lambda tier: [(nm,) + tuple(Concrete(x) for x in e.SIMFILE) for nm in names])]
+
+
+THOROUGH_BOUNDED = _thorough_bounded()
